@@ -17,6 +17,10 @@ func smallWorld(r *Rng, base string, minPkgs, maxPkgs, maxDecls int) (*ModuleSpe
 	if len(names) > 2 {
 		names = names[:2]
 	}
+	return smallWorldOf(r, base, names, minPkgs, maxPkgs, maxDecls)
+}
+
+func smallWorldOf(r *Rng, base string, names []string, minPkgs, maxPkgs, maxDecls int) (*ModuleSpec, []string, []proto.GenScript) {
 	cfg := DrawSpecConfig(r, names, base)
 	cfg.MinPkgs = minPkgs
 	cfg.MaxPkgs = r.Range(minPkgs, maxPkgs)
@@ -28,8 +32,15 @@ func smallWorld(r *Rng, base string, minPkgs, maxPkgs, maxDecls int) (*ModuleSpe
 	scfg := DrawScriptConfig(r)
 	scfg.PDefer = 0.5 // several deferred callbacks per package: a failing one may be followed by succeeding ones
 	gens := []proto.GenScript{Probe()}
+	nonew := 0
 	for _, n := range names {
-		gens = append(gens, DrawScript(r, scfg, m, n))
+		g := DrawScript(r, scfg, m, n)
+		if g.Impl == "nonew" {
+			if nonew++; nonew > 4 {
+				g.Impl = "new" // the worker has four prototypes of each kind for generators without New
+			}
+		}
+		gens = append(gens, g)
 	}
 	return m, names, gens
 }
@@ -75,6 +86,16 @@ func SimC02(c *CheckCtx, i int, r *Rng) error {
 	}
 	m, names, gens := smallWorld(r, base, minPkgs, map[bool]int{false: 2, true: 4}[thorough], map[bool]int{false: 4, true: 8}[thorough])
 	real := i%5 == 4
+	if !real && i%6 == 2 {
+		// many generators on one or two packages: a dozen output files per package in one run (what a pool
+		// of file writers, or anything else that changes strategy with the number of outputs, needs)
+		var many []string
+		for k := 0; k < r.Range(11, 15); k++ {
+			many = append(many, fmt.Sprintf("g%02d", k))
+		}
+		m, names, gens = smallWorldOf(r, base, many, 1, 2, 2)
+		c.Env.Stats.Add("probe/many-generators-world", 1)
+	}
 	if real {
 		// crash consistency of the files of the real runtimedoc/deepcopy/defaulter generators
 		m, names = DrawRealModule(r, 1)
@@ -104,8 +125,12 @@ func SimC02(c *CheckCtx, i int, r *Rng) error {
 			// so an output that silently stays as it was is visible
 			old := []proto.GenScript{Probe()}
 			scfg := DrawScriptConfig(r)
-			for _, n := range names {
-				old = append(old, DrawScript(r, scfg, m, n))
+			for k, n := range names {
+				g := DrawScript(r, scfg, m, n)
+				if k+1 < len(gens) && isScripted(&gens[k+1]) {
+					g.Impl = gens[k+1].Impl // (the worker has a fixed number of prototypes for generators without New)
+				}
+				old = append(old, g)
 			}
 			setupRun.Gens = old
 		}
@@ -212,6 +237,16 @@ func SimC02(c *CheckCtx, i int, r *Rng) error {
 	for k := 0; k < 3 && len(evs) > 2; k++ {
 		e := evs[r.Intn(len(evs))]
 		points = append(points, failurePoint{name: fmt.Sprintf("cancel@%d:%s", e.Exec, e.Kind), fault: proto.Fault{ExecSeq: e.Exec, Do: "cancel"}})
+	}
+	// SIGTERM / SIGINT at some event (a CI timeout, docker stop, ctrl-c): without a handler the process
+	// dies there; with one, the run must still not claim more than it did
+	for k := 0; k < 3 && len(evs) > 2; k++ {
+		e := evs[r.Intn(len(evs))]
+		how := "kill-in-save"
+		if e.Exec < save {
+			how = "kill-before-save"
+		}
+		points = append(points, failurePoint{name: fmt.Sprintf("signal@%d:%s", e.Exec, e.Kind), how: how, fault: proto.Fault{ExecSeq: e.Exec, Do: Pick(r, []string{"signal:TERM", "signal:INT"})}})
 	}
 	// I/O errors on the output files: not a trigger the property names, but a failed run all the same -
 	// it must not leave stale output behind that later runs trust (E4)
@@ -335,6 +370,11 @@ func SimC01(c *CheckCtx, i int, r *Rng) error {
 	if r.P(0.3) {
 		// files exist already: the open truncates instead of creating
 		setup = append(setup, Op{Kind: "run", Run: &RunOp{Args: args, Gens: gens, Sched: simrt.Schedule{Default: "asc"}, Fresh: true}})
+		if r.P(0.4) {
+			// ... as links to files kept elsewhere
+			setup = append(setup, Op{Kind: "linkout", K: Pick(r, eps)})
+			victim.Args.Force = true
+		}
 	}
 	rec := &Scenario{Kind: "history", Module: m, Base: base, Setup: setup, Variants: []Variant{{Name: "record", Ops: []Op{{Kind: "run", Run: victim}}}}}
 	out, err := c.RunScenario(rec, i)
